@@ -286,6 +286,17 @@ pub fn gen_world(r: &mut Rng, o: &GenOpts) -> World {
         if i >= pool.len() {
             name.push_str(&format!("{i}"));
         }
+        // occasionally names that differ only in leading zeros of a number (`Grant1`, `Grant01`)
+        if o.case_variants && kind != Kind::Const && r.chance(1, 12) {
+            let base: String = pool[(i + 7) % pool.len()].to_string();
+            for suffix in ["1", "01", "001", "7", "07"] {
+                let cand = format!("{base}{suffix}");
+                if !names.contains(&cand) && !items.iter().any(|it: &GItem| it.name == cand) {
+                    name = cand;
+                    break;
+                }
+            }
+        }
         // occasionally a name that differs from an earlier one only by case
         if o.case_variants && !names.is_empty() && kind != Kind::Const && r.chance(1, 10) {
             let cand = r.pick(&names).to_uppercase();
@@ -414,6 +425,19 @@ pub fn gen_world(r: &mut Rng, o: &GenOpts) -> World {
             }
         }
         items.push(it);
+    }
+    // a chain of wire names: A is renamed to B's Rust name while B itself gets a new wire name
+    if o.renames && r.chance(1, 10) {
+        let idx: Vec<usize> = items.iter().enumerate().filter(|(_, it)| it.annotated && matches!(it.kind, Kind::Struct | Kind::UnitEnum) && it.generics.is_empty()).map(|(i, _)| i).collect();
+        if idx.len() >= 2 {
+            let a = idx[r.below(idx.len() as u64) as usize];
+            let b = idx[r.below(idx.len() as u64) as usize];
+            if a != b && items[a].crate_ix == items[b].crate_ix && items[a].name != items[b].name {
+                let bname = items[b].name.clone();
+                items[b].serde_rename = Some(format!("{bname}Legacy"));
+                items[a].serde_rename = Some(bname);
+            }
+        }
     }
     World { crates, items, noise: r.chance(1, 2), style: r.next(), allow_glob_named: o.glob_named, allow_reexport: o.reexports, symlinks: o.symlinks }
 }
@@ -549,7 +573,9 @@ impl World {
                         if defs.contains(&ci) || defs.is_empty() {
                             continue;
                         }
-                        by_crate.entry(defs[0]).or_default().insert(rname);
+                        // with the name defined in several other crates, files of one crate may
+                        // import it from different ones
+                        by_crate.entry(defs[fi % defs.len()]).or_default().insert(rname);
                     }
                 }
                 let mut fr = Rng::new(self.style ^ ((ci as u64) << 8 | fi as u64));
@@ -987,6 +1013,13 @@ pub const POISONS: &[Poison] = &[
     Poison { id: "enum_without_tag_content", poison: "#[typeshare]\npub enum Pz { Ok, Data(String) }\n", skipped: Some("#[typeshare]\npub enum Pz { Ok, #[serde(skip)] Data(String) }\n") },
     Poison { id: "enum_tag_only", poison: "#[typeshare]\n#[serde(tag = \"type\")]\npub enum Pz { Ok, Data(String) }\n", skipped: None },
     Poison { id: "enum_content_only", poison: "#[typeshare]\n#[serde(content = \"content\")]\npub enum Pz { Ok, Data { v: u32 } }\n", skipped: None },
+    Poison { id: "enum_tag_only_struct_variants", poison: "#[typeshare]\n#[serde(tag = \"type\")]\npub enum Pz { Idle, Data { v: u32 }, More { a: String, b: bool } }\n", skipped: None },
+    Poison { id: "enum_content_only_tuple", poison: "#[typeshare]\n#[serde(content = \"c\")]\npub enum Pz { Idle, Data(String) }\n", skipped: None },
+    Poison { id: "enum_no_attrs_struct_variant", poison: "#[typeshare]\npub enum Pz { Idle, Data { v: u32 } }\n", skipped: Some("#[typeshare]\npub enum Pz { Idle, #[serde(skip)] Data { v: u32 } }\n") },
+    Poison { id: "flatten_in_struct_variant", poison: "#[typeshare]\n#[serde(tag = \"type\", content = \"content\")]\npub enum Pz { Ok(u32), Shape { w: u32, #[serde(flatten)] rest: HashMap<String, String> } }\n", skipped: Some("#[typeshare]\n#[serde(tag = \"type\", content = \"content\")]\npub enum Pz { Ok(u32), Shape { w: u32, #[serde(skip)] #[serde(flatten)] rest: HashMap<String, String> } }\n") },
+    Poison { id: "const_u64_type", poison: "#[typeshare]\npub const PZ: u64 = 5;\n", skipped: None },
+    Poison { id: "const_float_literal", poison: "#[typeshare]\npub const PZ: f64 = 1.5;\n", skipped: None },
+    Poison { id: "const_bool_literal", poison: "#[typeshare]\npub const PZ: bool = true;\n", skipped: None },
     Poison { id: "tag_on_unit_enum", poison: "#[typeshare]\n#[serde(tag = \"type\")]\npub enum Pz { A, B }\n", skipped: None },
     Poison { id: "content_on_unit_enum", poison: "#[typeshare]\n#[serde(tag = \"type\", content = \"content\")]\npub enum Pz { A, B }\n", skipped: None },
     Poison { id: "const_string", poison: "#[typeshare]\npub const PZ: &str = \"nope\";\n", skipped: None },
